@@ -491,6 +491,16 @@ class Calls:
                         continue
                 sent = [self.operand(fr, st, s["send"])] if d == "send" else []
                 s2.log("select-" + d, [ch] + sent, [], ins.get("pos"), "chan")
+                if d == "recv" and is_z3(ch.ref) and z3.is_app(ch.ref) and ch.ref.decl().name() == "ctx.Done":
+                    # a context whose Done channel delivered has a non-nil Err (context package contract)
+                    s2.assume(uf("ctx.Err", [Ref], Ref)(ch.ref.arg(0)) != NIL)
+                cur = self.cur
+                if cur is not None and d == "recv" and cur["decl"].get("cancellable"):
+                    cv = cur["names"].get(cur["decl"].get("cancellable")[0].text.strip())
+                    if isinstance(cv, IfaceV):
+                        dn = uf("ctx.Done", [Ref], Ref)(cv.ref)
+                        if z3.is_true(z3.simplify(ch.ref == dn)):
+                            s2.ghost["took_done"] = len(s2.trace) - 1
             outs.append((s2, TupleV(vals)))
         return self._continue_call(fr, st, ins, outs)
 
